@@ -4,9 +4,10 @@
    that its outputs have 32 bytes.  Statements that depend on collision resistance are in reduction form:
    "... \/ collision H" where  collision H := exists x y, x <> y /\ H x = H y ; all proofs are constructive
    (Print Assumptions: closed), so the colliding pair is computed from the inputs of the theorem. *)
-From Coq Require Import List NArith ZArith Arith Bool.
+From Coq Require Import List NArith ZArith Arith Bool Lia.
 From MV Require Import Gen.C12 C12.Model C12.Proofs C12.Proofs2 C12.Proofs3 C12.Proofs4 C12.Proofs5.
 Import ListNotations.
+Open Scope nat_scope.
 Open Scope list_scope.
 
 (* A tree validates iff every node is well-formed and its hash is H(key ++ left child's hash ++ right child's hash)
@@ -36,7 +37,7 @@ Qed.
 (* For every key of a valid tree of any size (first occurrence at index; the key not repeated at the two children
    of that node, e.g. keys pairwise different) the extracted proof exists, verifies, has odd length and ends in the root. *)
 Theorem C12_proof_complete : forall (H : bytes -> bytes), (forall x, length (H x) = 32) ->
-  forall t key index, is_valid H t = true ->
+  forall t, is_valid H t = true -> forall key index,
   find_index (key_is key) t 0 = Some index ->
   (forall c n, c = 2 * index + 1 \/ c = 2 * index + 2 -> nth_error t c = Some n -> nkey n <> key) ->
   exists p, extract t key = Some p /\ prove H p key = true /\ Nat.odd (length p) = true /\
@@ -132,8 +133,11 @@ Proof.
   eexists. eexists. split; [vm_compute; reflexivity|]. split; [vm_compute; reflexivity|].
   split; [vm_compute; reflexivity|]. split; [vm_compute; reflexivity|]. split; [reflexivity|].
   split; [vm_compute; reflexivity|]. split.
-  - unfold wf_proof. repeat constructor; simpl; auto;
-      intros n I; simpl in I; repeat (destruct I as [I|I]; [subst n; simpl; split; repeat constructor|]); contradiction.
+  - apply Forall_forall. intros c Ic. split.
+    + simpl in Ic. repeat (destruct Ic as [Ic|Ic]; [subst c; vm_compute; auto|]). contradiction.
+    + intros n In'. simpl in Ic, In'.
+      repeat (destruct Ic as [Ic|Ic]; [subst c|]); try contradiction;
+        repeat (destruct In' as [In'|In']; [subst n|]); try contradiction; simpl; lia.
   - exists 0, (mkNode [1%N] (H0 ([1%N] ++ H0 ([2%N] ++ H0 [4%N] ++ H0 [5%N]) ++ H0 ([3%N] ++ H0 [6%N] ++ []))) false).
     split; vm_compute; reflexivity.
 Qed.
